@@ -9,217 +9,7 @@ pub mod spec {
 use super::*;
 use super::code::*;
 
-// ---- the order on T, as the comparison operators see it
-pub open spec fn le<T: PartialOrd>(a: T, b: T) -> bool {
-    a.partial_cmp_spec(&b) == Some(Ordering::Less) || a.partial_cmp_spec(&b) == Some(Ordering::Equal)
-}
-pub open spec fn lt<T: PartialOrd>(a: T, b: T) -> bool {
-    a.partial_cmp_spec(&b) == Some(Ordering::Less)
-}
-pub open spec fn gt<T: PartialOrd>(a: T, b: T) -> bool {
-    a.partial_cmp_spec(&b) == Some(Ordering::Greater)
-}
-pub open spec fn ge<T: PartialOrd>(a: T, b: T) -> bool {
-    a.partial_cmp_spec(&b) == Some(Ordering::Greater) || a.partial_cmp_spec(&b) == Some(Ordering::Equal)
-}
-
-// T is a total order whose partial_cmp is coherent (Less/Greater mirror each other, Equal is equality)
-pub open spec fn total_order<T: PartialOrd>() -> bool {
-    &&& T::obeys_partial_cmp_spec()
-    &&& forall|a: T, b: T| #[trigger] a.partial_cmp_spec(&b) is Some
-    &&& forall|a: T, b: T| (#[trigger] a.partial_cmp_spec(&b) == Some(Ordering::Equal)) <==> a == b
-    &&& forall|a: T, b: T| (#[trigger] a.partial_cmp_spec(&b) == Some(Ordering::Less)) <==> (b.partial_cmp_spec(&a) == Some(Ordering::Greater))
-    &&& forall|a: T, b: T, c: T| #[trigger] le(a, b) && #[trigger] le(b, c) ==> le(a, c)
-}
-// ... with no least and no greatest element (so that a half-line really is unbounded)
-pub open spec fn below<T: PartialOrd>(a: T) -> T { choose|b: T| lt(b, a) }
-pub open spec fn above<T: PartialOrd>(a: T) -> T { choose|b: T| lt(a, b) }
-pub open spec fn unbounded<T: PartialOrd>() -> bool {
-    &&& forall|a: T| lt(#[trigger] below(a), a)
-    &&& forall|a: T| lt(a, #[trigger] above(a))
-}
-pub open spec fn max_of<T: PartialOrd>(a: T, b: T) -> T { if le(a, b) { b } else { a } }
-
-// ---- denotation: the closed set an interval stands for (property C07, first sentence)
-pub open spec fn den<T: PartialOrd>(i: Interval<T>, x: T) -> bool {
-    match i {
-        Interval::TwoSided(l, h) => le(l, x) && le(x, h),
-        Interval::UpperOneSided(l) => le(l, x),
-        Interval::LowerOneSided(h) => le(x, h),
-    }
-}
-pub open spec fn wf<T: PartialOrd>(i: Interval<T>) -> bool {
-    match i {
-        Interval::TwoSided(l, h) => le(l, h),
-        _ => true,
-    }
-}
-// superset, written from the sets (not from the code)
-pub open spec fn incl_qf<T: PartialOrd>(a: Interval<T>, b: Interval<T>) -> bool {
-    match (a, b) {
-        (Interval::TwoSided(x, y), Interval::TwoSided(p, q)) => le(x, p) && le(q, y),
-        (Interval::TwoSided(_, _), _) => false,                       // bounded cannot contain a half-line
-        (Interval::UpperOneSided(x), Interval::TwoSided(p, _)) => le(x, p),
-        (Interval::UpperOneSided(x), Interval::UpperOneSided(p)) => le(x, p),
-        (Interval::UpperOneSided(_), Interval::LowerOneSided(_)) => false,
-        (Interval::LowerOneSided(y), Interval::TwoSided(_, q)) => le(q, y),
-        (Interval::LowerOneSided(y), Interval::LowerOneSided(q)) => le(q, y),
-        (Interval::LowerOneSided(_), Interval::UpperOneSided(_)) => false,
-    }
-}
-// non-empty intersection, written from the sets: every lower bound that exists is <= every upper bound that exists
-pub open spec fn meet_qf<T: PartialOrd>(a: Interval<T>, b: Interval<T>) -> bool {
-    match (a, b) {
-        (Interval::TwoSided(x, y), Interval::TwoSided(p, q)) => le(x, q) && le(p, y),
-        (Interval::TwoSided(x, y), Interval::UpperOneSided(p)) => le(p, y),
-        (Interval::TwoSided(x, y), Interval::LowerOneSided(q)) => le(x, q),
-        (Interval::UpperOneSided(x), Interval::TwoSided(p, q)) => le(x, q),
-        (Interval::UpperOneSided(_), Interval::UpperOneSided(_)) => true,
-        (Interval::UpperOneSided(x), Interval::LowerOneSided(q)) => le(x, q),
-        (Interval::LowerOneSided(y), Interval::TwoSided(p, q)) => le(p, y),
-        (Interval::LowerOneSided(y), Interval::UpperOneSided(p)) => le(p, y),
-        (Interval::LowerOneSided(_), Interval::LowerOneSided(_)) => true,
-    }
-}
-
-
-// ---- C07: the quantifier-free relations ARE the set relations of the denotations
-pub open spec fn superset<T: PartialOrd>(a: Interval<T>, b: Interval<T>) -> bool {
-    forall|x: T| #[trigger] den(b, x) ==> den(a, x)
-}
-pub open spec fn meets<T: PartialOrd>(a: Interval<T>, b: Interval<T>) -> bool {
-    exists|x: T| #[trigger] den(a, x) && den(b, x)
-}
-
-pub proof fn lemma_ord<T: PartialOrd>(a: T, b: T)
-    requires total_order::<T>(),
-    ensures le(a, b) || le(b, a), le(a, b) && le(b, a) ==> a == b, lt(a, b) <==> !le(b, a), le(a, a), lt(a, b) ==> le(a, b),
-{
-    assert(a.partial_cmp_spec(&b) is Some);
-    assert(b.partial_cmp_spec(&a) is Some);
-    let o = a.partial_cmp_spec(&b)->Some_0;
-    let p = b.partial_cmp_spec(&a)->Some_0;
-    assert(o is Less || o is Equal || o is Greater);
-    assert(p is Less || p is Equal || p is Greater);
-    assert(a.partial_cmp_spec(&a) == Some(Ordering::Equal));
-    assert((b.partial_cmp_spec(&a) == Some(Ordering::Less)) <==> (a.partial_cmp_spec(&b) == Some(Ordering::Greater)));
-    assert((a.partial_cmp_spec(&b) == Some(Ordering::Less)) <==> (b.partial_cmp_spec(&a) == Some(Ordering::Greater)));
-    assert((a.partial_cmp_spec(&b) == Some(Ordering::Equal)) <==> a == b);
-    assert((b.partial_cmp_spec(&a) == Some(Ordering::Equal)) <==> b == a);
-}
-pub proof fn lemma_trans<T: PartialOrd>(a: T, b: T, c: T)
-    requires total_order::<T>(), le(a, b), le(b, c),
-    ensures le(a, c),
-{}
-// strictly above the larger of two values: strictly above both
-pub proof fn lemma_above2<T: PartialOrd>(y: T, p: T) -> (w: T)
-    requires total_order::<T>(), unbounded::<T>(),
-    ensures w == above(max_of(y, p)), lt(y, w), lt(p, w), !le(w, y), !le(w, p), le(y, w), le(p, w),
-{
-    let m = max_of(y, p);
-    let w = above(m);
-    lemma_ord(y, p); lemma_ord(m, w); lemma_ord(y, w); lemma_ord(p, w); lemma_ord(w, y); lemma_ord(w, p);
-    assert(le(y, m) && le(p, m));
-    assert(lt(m, w));
-    lemma_trans(y, m, w); lemma_trans(p, m, w);
-    if le(w, y) { lemma_trans(w, y, m); }
-    if le(w, p) { lemma_trans(w, p, m); }
-    w
-}
-pub proof fn lemma_below2<T: PartialOrd>(x: T, q: T) -> (w: T)
-    requires total_order::<T>(), unbounded::<T>(),
-    ensures w == below(if le(x, q) { x } else { q }), lt(w, x), lt(w, q), !le(x, w), !le(q, w), le(w, x), le(w, q),
-{
-    let m = if le(x, q) { x } else { q };
-    let w = below(m);
-    lemma_ord(x, q); lemma_ord(w, m); lemma_ord(w, x); lemma_ord(w, q); lemma_ord(x, w); lemma_ord(q, w);
-    assert(le(m, x) && le(m, q));
-    assert(lt(w, m));
-    lemma_trans(w, m, x); lemma_trans(w, m, q);
-    if le(x, w) { lemma_trans(m, x, w); }
-    if le(q, w) { lemma_trans(m, q, w); }
-    w
-}
-
-pub proof fn lemma_incl_is_superset<T: PartialOrd>(a: Interval<T>, b: Interval<T>)
-    requires total_order::<T>(), unbounded::<T>(), wf(a), wf(b),
-    ensures incl_qf(a, b) <==> superset(a, b),
-{
-    if incl_qf(a, b) {
-        assert forall|x: T| #[trigger] den(b, x) implies den(a, x) by {}
-    } else {
-        // exhibit a member of b that is not in a
-        match (a, b) {
-            (Interval::TwoSided(x, y), Interval::TwoSided(p, q)) => {
-                if !le(x, p) { assert(den(b, p) && !den(a, p)); } else { assert(den(b, q) && !den(a, q)); }
-            },
-            (Interval::TwoSided(x, y), Interval::UpperOneSided(p)) => {
-                let w = lemma_above2(y, p);
-                assert(den(b, w) && !den(a, w));
-            },
-            (Interval::TwoSided(x, y), Interval::LowerOneSided(q)) => {
-                let w = lemma_below2(x, q);
-                assert(den(b, w) && !den(a, w));
-            },
-            (Interval::UpperOneSided(x), Interval::TwoSided(p, _)) => { assert(den(b, p) && !den(a, p)); },
-            (Interval::UpperOneSided(x), Interval::UpperOneSided(p)) => { assert(den(b, p) && !den(a, p)); },
-            (Interval::UpperOneSided(x), Interval::LowerOneSided(q)) => {
-                let w = lemma_below2(x, q);
-                assert(den(b, w) && !den(a, w));
-            },
-            (Interval::LowerOneSided(y), Interval::TwoSided(_, q)) => { assert(den(b, q) && !den(a, q)); },
-            (Interval::LowerOneSided(y), Interval::LowerOneSided(q)) => { assert(den(b, q) && !den(a, q)); },
-            (Interval::LowerOneSided(y), Interval::UpperOneSided(p)) => {
-                let w = lemma_above2(y, p);
-                assert(den(b, w) && !den(a, w));
-            },
-        }
-    }
-}
-
-pub proof fn lemma_meet_is_intersection<T: PartialOrd>(a: Interval<T>, b: Interval<T>)
-    requires total_order::<T>(), wf(a), wf(b),
-    ensures meet_qf(a, b) <==> meets(a, b),
-{
-    if meet_qf(a, b) {
-        // witness: the larger of the lower bounds, or the smaller of the upper bounds
-        let w: T = match (a, b) {
-            (Interval::TwoSided(x, _), Interval::TwoSided(p, _)) => max_of(x, p),
-            (Interval::TwoSided(x, _), Interval::UpperOneSided(p)) => max_of(x, p),
-            (Interval::TwoSided(x, _), Interval::LowerOneSided(_)) => x,
-            (Interval::UpperOneSided(x), Interval::TwoSided(p, _)) => max_of(x, p),
-            (Interval::UpperOneSided(x), Interval::UpperOneSided(p)) => max_of(x, p),
-            (Interval::UpperOneSided(x), Interval::LowerOneSided(_)) => x,
-            (Interval::LowerOneSided(_), Interval::TwoSided(p, _)) => p,
-            (Interval::LowerOneSided(_), Interval::UpperOneSided(p)) => p,
-            (Interval::LowerOneSided(y), Interval::LowerOneSided(q)) => if le(y, q) { y } else { q },
-        };
-        match (a, b) {
-            (Interval::TwoSided(x, _), Interval::TwoSided(p, _)) => { lemma_ord(x, p); },
-            (Interval::TwoSided(x, _), Interval::UpperOneSided(p)) => { lemma_ord(x, p); },
-            (Interval::UpperOneSided(x), Interval::TwoSided(p, _)) => { lemma_ord(x, p); },
-            (Interval::UpperOneSided(x), Interval::UpperOneSided(p)) => { lemma_ord(x, p); },
-            (Interval::LowerOneSided(y), Interval::LowerOneSided(q)) => { lemma_ord(y, q); },
-            (Interval::TwoSided(x, _), Interval::LowerOneSided(_)) => { lemma_ord(x, x); },
-            (Interval::UpperOneSided(x), Interval::LowerOneSided(_)) => { lemma_ord(x, x); },
-            (Interval::LowerOneSided(_), Interval::TwoSided(p, _)) => { lemma_ord(p, p); },
-            (Interval::LowerOneSided(_), Interval::UpperOneSided(p)) => { lemma_ord(p, p); },
-        }
-        assert(den(a, w) && den(b, w));
-    } else {
-        assert forall|x: T| !(#[trigger] den(a, x) && den(b, x)) by {}
-    }
-}
-
-pub proof fn lemma_meet_symmetric<T: PartialOrd>(a: Interval<T>, b: Interval<T>)
-    ensures meet_qf(a, b) == meet_qf(b, a),
-{}
-
-pub proof fn lemma_incl_reflexive_transitive<T: PartialOrd>(a: Interval<T>, b: Interval<T>, c: Interval<T>)
-    requires total_order::<T>(), wf(a), wf(b), wf(c),
-    ensures incl_qf(a, a), incl_qf(a, b) && incl_qf(b, c) ==> incl_qf(a, c),
-{}
-
+//@include prelude/interval_spec.rs
 } // mod spec
 
 pub mod code {
